@@ -13,7 +13,8 @@ LEVEL = "exploration"
 RULE = ("case = history over two real connections joined by a HELD link (nothing is delivered until the history says so): "
         "send object k again in an asynchronous request (alone / twice in one tuple / nested in tuples / as keyword), deliver "
         "the next packet owner->holder, deliver the next packet holder->owner, drop one held reference, use a live proxy "
-        "(asynchronously), pass a proxy back to its owner, collect a result, gc; then drain and close. 3 lendable builtin "
+        "(asynchronously), pass a proxy back to its owner, collect a result, gc, fetch object k with an expiry that passes before the "
+        "answer is delivered; then drain and close. 3 lendable builtin "
         "lists (+ instances of a harness class in the 'inspect' variant, whose receipt needs a nested HANDLE_INSPECT served by "
         "forced FIFO deliveries). oracle after every step: I1 while the holder has a reference to k or one is in flight, k is "
         "in the owner's table and every use through a proxy answers correctly; I2 when both streams are drained and the "
@@ -60,6 +61,9 @@ def run_history(case):
             def __init__(self):
                 self.back = []
 
+            def exposed_get(self, kidx):
+                return pool[kidx]
+
             def exposed_back(self, kidx, x):
                 self.back.append((kidx, x is pool[kidx]))
                 return True
@@ -80,6 +84,7 @@ def run_history(case):
             # immediate mode while the two ends get each other's entry points; the helper loops end before the history
             out["take"] = A.root.take
             out["back"] = B.root.back
+            out["get"] = B.root.get
             out["stop"] = True
             k.sleep(1.0)
 
@@ -227,6 +232,17 @@ def run_history(case):
                         del prx
                         for _ in range(packets_to_a() - before):
                             notices.append(None)
+                elif op == "fetch_late":
+                    # the holder asks for object k with an expiry and the answer (a reference) arrives after it: nobody will
+                    # ever hold that reference, so the owner must not keep it either
+                    kk = stp[1] % len(pool)
+                    r = rpyc.async_(out["get"])(kk)
+                    r.set_expiry(0.5)
+                    busy["step"] = False
+                    k.sleep(1.0)
+                    busy["step"] = True
+                    del r
+                    stats["late_fetches"] = stats.get("late_fetches", 0) + 1
                 elif op == "gc":
                     gc.collect()
                 sync_books()
@@ -350,6 +366,8 @@ def check(case, rec):
         classes.append("crossing")
     if any(s[0] == "send" and s[2] == "twice" for s in case["steps"]):
         classes.append("repeated-in-one-tuple")
+    if stats.get("late_fetches"):
+        classes.append("reference-arriving-after-the-request-expired")
     if case.get("variant") == "inspect":
         classes.append("inspect-variant")
         if stats.get("pumped"):
@@ -435,7 +453,8 @@ def cases():
     idx = st.integers(0, 5)
     step = st.one_of(send, send, st.just(["to_holder"]), st.just(["to_holder"]), st.just(["to_owner"]),
                      st.tuples(st.just("drop"), idx).map(list), st.tuples(st.just("drop"), idx).map(list),
-                     st.tuples(st.just("use"), idx).map(list), st.tuples(st.just("back"), idx).map(list), st.just(["gc"]))
+                     st.tuples(st.just("use"), idx).map(list), st.tuples(st.just("back"), idx).map(list), st.just(["gc"]),
+                     st.tuples(st.just("fetch_late"), st.integers(0, 2)).map(list))
     # constructive crossing: send, deliver, drop (notice in flight), send again before the notice is delivered
     cross = st.tuples(st.integers(0, 2), st.sampled_from(["alone", "twice", "nested", "kw"]),
                       st.sampled_from(["alone", "twice", "kw"]), st.lists(step, max_size=6)).map(
